@@ -2,7 +2,7 @@
 import numpy as np
 
 from pymbolic.mapper.stringifier import (
-    PREC_CALL, PREC_LOGICAL_OR, PREC_NONE, PREC_POWER, PREC_PRODUCT,
+    PREC_CALL, PREC_LOGICAL_OR, PREC_NONE, PREC_POWER, PREC_PRODUCT, PREC_SUM,
     StringifyMapper)
 
 
@@ -164,7 +164,11 @@ class PythonExpressionMapper(StringifyMapper):
         if isinstance(expr, np.generic):
             expr = expr.item()
 
-        return repr(expr)
+        result = repr(expr)
+        if result.startswith("-") and args and args[0] > PREC_SUM:
+            # e.g. (-1)**x must not become -1**x
+            result = "(%s)" % result
+        return result
 
     def map_foreign(self, expr, *args):
         if expr is None:
